@@ -763,3 +763,15 @@ package circuitbreaker
 //@   ensures [C12.breaker.handleif_delegates+C03.builder.handleif] nd == 1 && dr == c.BaseFailurePolicy && result_0 == asiface(c) && da == predicate
 //@   havoc
 //@   modifies *
+
+// policy-level success / failure listeners
+//@ func (*config).OnSuccess
+//@   builder
+//@   requires c != nil && c.BaseFailurePolicy != nil
+//@   ensures [C16.circuitbreaker.listener_registered_onsuccess+C03.builder.onsuccess] c.onSuccess == listener && c.onFailure == old(c.onFailure) && result == asiface(c)
+//@   modifies c.BaseFailurePolicy.onSuccess
+//@ func (*config).OnFailure
+//@   builder
+//@   requires c != nil && c.BaseFailurePolicy != nil
+//@   ensures [C16.circuitbreaker.listener_registered_onfailure+C03.builder.onfailure] c.onFailure == listener && c.onSuccess == old(c.onSuccess) && result == asiface(c)
+//@   modifies c.BaseFailurePolicy.onFailure
